@@ -85,9 +85,12 @@ class ReportLuns(SCSICommand):
             result[:4] = scsi_int_to_ba(len(result) - 8, 4)
             return result
 
-        for l in data["luns"]:
+        for i, l in enumerate(data["luns"]):
             _r = bytearray(8)
-            encode_dict(l, cls._datain_bits, _r)
+            # unmarshall_datain reports the n-th lun under the key "lun<n>"
+            encode_dict(
+                {"lun": l.get("lun", l.get("lun%s" % i, 0))}, cls._datain_bits, _r
+            )
 
             result += _r
         result[:4] = scsi_int_to_ba(len(result) - 8, 4)
